@@ -762,6 +762,10 @@ def simplify_constrained_range(source: str) -> str:
             else:
                 comparator = condition.comparators[0]
 
+            if type(comparator.value) is not int:
+                # Only integer bounds can be folded into the arguments of range
+                continue
+
             if core.match_template(condition, gt_template):
                 if start is None or comparator.value > start:
                     start = comparator.value + 1
